@@ -37,6 +37,9 @@ EXTRA_STATIC = [
     # pointers to distinct literals of equal length that share their first bytes (the literal pool must not merge them)
     'unsigned *es90[] = { U"abc", U"axy", U"abz", U"abc" };', 'unsigned short *es91[] = { u"ab", u"ac", u"a", u"ab" }; char *es92[] = { "a", "ab", "a\\0b" }; unsigned short *es93 = u"a"; int *es94 = (int *)L"a";',
     'struct { unsigned *w; char *c; } es95[] = { { U"a", "a" }, { U"b", "a\\0\\0\\0" } };',
+    # an element designator after a string that initialised the whole array (first, last, beyond the literal)
+    "struct { char s[4]; int y; } es96 = { .s = \"abc\", .s[3] = 'x', .y = 2 };", "struct { char s[4]; int y; } es97 = { .s = \"abc\", .s[0] = 'x', .y = 2 };", "struct { char s[8]; } es98 = { .s = \"ab\", .s[7] = 1, .s[1] = 'z' };",
+    'struct { unsigned short w[3]; char c; } es99 = { .w = u"ab", .w[2] = 7, .c = 1 };', 'char es100[2][4] = { [1] = "abc", [1][3] = 1, [0][3] = 2, [0] = "x" };',
     # designators that pass through anonymous members, followed by positional initialisers
     'struct { int a; struct { int b, c; }; int d; int e; } es81 = { .b = 1, 2, 3 };', 'struct { int a; struct { int b, c; }; int d; int e; } es82 = { 5, .c = 1, 3 };',
     'struct { int a; union { int b; char c; }; int d; } es83 = { .c = 1, 2 };', 'struct { struct { struct { int x, y; }; int z; }; int w; } es84 = { .y = 1, 2, 3 };',
